@@ -31,3 +31,22 @@ def parseQss? (s : String) : Option (List (List ℚ)) :=
 def showQs (xs : List ℚ) : String := " ".intercalate (xs.map showQ)
 
 end Compmech.Proto
+
+namespace Compmech.Proto
+
+/-- one reply line per input line `<op> <rest…>` -/
+partial def runLoop (handle : String → String → String) : IO Unit := do
+  let inp ← IO.getStdin
+  let out ← IO.getStdout
+  let rec go : IO Unit := do
+    let line ← inp.getLine
+    if line.isEmpty then return ()
+    let l := line.trimAscii.toString
+    match l.splitOn " " with
+    | op :: rest => out.putStrLn (handle op (" ".intercalate rest))
+    | _ => out.putStrLn "err parse"
+    go
+  go
+  out.flush
+
+end Compmech.Proto
